@@ -130,21 +130,27 @@ def run(ctx):
         return t
 
     d = stage(ctx)
-    threads = [job("build", lambda: lib.cargo_build("h_tx", ["c14_replay"])),
-               job("emit", lambda: emit_cases(ctx, d, wide)),
-               job("th", lambda: theorems(ctx, d, wide))]
-    for t in threads:
-        t.join()
-    if errors:
-        tool = [e for e in errors if isinstance(e, lib.ToolError)]
-        raise (tool[0] if tool else errors[0])
+    t_build = job("build", lambda: lib.cargo_build("h_tx", ["c14_replay"]))
+    t_emit = job("emit", lambda: emit_cases(ctx, d, wide))
+    t_th = job("th", lambda: theorems(ctx, d, wide))
+
+    def check_errors():
+        if errors:
+            tool = [e for e in errors if isinstance(e, lib.ToolError)]
+            raise (tool[0] if tool else errors[0])
+    t_build.join()
+    t_emit.join()
+    check_errors()
     bindir = results["build"]
     r_emit, cases, table = results["emit"]
     lib.account_tlc(ctx, r_emit)
-    lib.account_tlc(ctx, results["th"])
 
+    # the replay runs while TLC is still busy with the theorems
     real = 4 if ctx.quick() else 48
     res = execute(ctx, bindir, cases, table, real, timeout=3000 if ctx.quick() else 12000)
+    t_th.join()
+    check_errors()
+    lib.account_tlc(ctx, results["th"])
     judge(ctx, res)
     st = res["stats"]
     missing = [k for k in REQUIRED if st.get(k, 0) == 0]
